@@ -121,12 +121,12 @@ PROPS["C02"] = {
 
 PROPS["C14"] = {
     "level": "proof",
-    "verus": [{"unit": "recognisers", "rlimit": 200}, {"unit": "walkers", "rlimit": 200}, {"unit": "iterators", "rlimit": 200}, {"unit": "getmany", "rlimit": 300}],
+    "verus": [{"unit": "recognisers", "rlimit": 200}, {"unit": "walkers", "rlimit": 200}, {"unit": "iterators", "rlimit": 200}, {"unit": "getmany", "rlimit": 300}, {"unit": "lazy_get", "rlimit": 300}],
     "kani": K_STRTAB,
     "trusted_base": [T1, T2, T4, T6, T8, VSTD, PERR,
                      "get_many walkers: the path trie (PointerTree / MultiKey / MultiIndex lookups) is opaque — `get` is assumed to return a child of the same well-formed tree whose `order` entries index the output vector; LazyValue::new is assumed to carry exactly the slice it is given; three declared substitutions (indexed store -> Vec::set, impure match guard -> nested if, `&\"a JSON object\"` -> the literal)"],
     "level_text": "Verus proof that whenever the validating skipper returns a fragment it is exactly data[ws_end..value_end) of a well-formed RFC 8259 value inside the input (skip_one postcondition); that checked get walkers succeed only if everything traversed (brackets, every earlier member/element, separators, key, colon) is well formed (object_lookup / array_lookup specs); and the same for each item of the checked iterators",
-    "level_note": "checked get_many walkers (get_many_rec / get_many_keys / get_many_index): every slot they fill is the exact span of a well-formed value, the fill count matches `remain`, and a walker that returns Ok with paths still open has validated its whole container; get_from_with_iter's generic path loop and get_by_schema are not under contract; parse_string_raw acceptance contract assumed in unit walkers; UTF-8 validity of the prefix is simdutf8 (T4)",
+    "level_note": "checked get_many walkers (get_many_rec / get_many_keys / get_many_index): every slot they fill is the exact span of a well-formed value, the fill count matches `remain`, and a walker that returns Ok with paths still open has validated its whole container; the public wrappers get / get_many (unit lazy_get): for inputs not known to be UTF-8 a returned value implies that everything traversed up to and including it is valid UTF-8 (validity itself is std::str::from_utf8, T4); get_from_with_iter's generic path loop and get_by_schema are not under contract; parse_string_raw acceptance contract assumed in unit walkers; UTF-8 validity of the prefix is simdutf8 (T4)",
     "technique": TECH_V,
     "explanation": "skip_one: Ok((slice,_)) ==> slice == data[p..e) with value_end == Some(e)",
 }
@@ -199,7 +199,7 @@ K_STRBITS = [
 
 PROPS["C01"] = {
     "level": "proof",
-    "verus": [{"unit": "recognisers", "rlimit": 200}, {"unit": "errors", "rlimit": 200}, {"unit": "number", "rlimit": 400}, {"unit": "walkers", "rlimit": 200}, {"unit": "iterators", "rlimit": 200}, {"unit": "strings", "rlimit": 200}, {"unit": "decoder", "rlimit": 300}, {"unit": "decoder_inplace", "rlimit": 300}, {"unit": "serde_access", "rlimit": 200}, {"unit": "unchecked", "rlimit": 400}, {"unit": "getmany", "rlimit": 300}, {"unit": "owned_load", "rlimit": 400}, {"unit": "walkers_unchecked", "rlimit": 400}, {"unit": "container", "rlimit": 400}, {"unit": "formatter", "rlimit": 200}, {"unit": "serializer", "rlimit": 300}],
+    "verus": [{"unit": "recognisers", "rlimit": 200}, {"unit": "errors", "rlimit": 200}, {"unit": "number", "rlimit": 400}, {"unit": "walkers", "rlimit": 200}, {"unit": "iterators", "rlimit": 200}, {"unit": "strings", "rlimit": 200}, {"unit": "decoder", "rlimit": 300}, {"unit": "decoder_inplace", "rlimit": 300}, {"unit": "serde_access", "rlimit": 200}, {"unit": "unchecked", "rlimit": 400}, {"unit": "getmany", "rlimit": 300}, {"unit": "owned_load", "rlimit": 400}, {"unit": "walkers_unchecked", "rlimit": 400}, {"unit": "container", "rlimit": 400}, {"unit": "formatter", "rlimit": 200}, {"unit": "serializer", "rlimit": 300}, {"unit": "lazy_get", "rlimit": 300}],
     "kani": K_UNICODE + K_BLOCK[3:] + K_QUOTE[1:] + K_META[:1] + K_META[2:] + K_READER + K_OWNED[:2] + K_OWNED[-1:],
     "syntactic": [{"name": "recursion guard stays alive while the nested value is visited", "fn": synt.depth_guard_held},
                   {"name": "input-driven parser recursion has a depth budget", "fn": synt.parser_recursion_bounded}],
@@ -214,14 +214,14 @@ PROPS["C01"] = {
 
 PROPS["C13"] = {
     "level": "proof",
-    "verus": [{"unit": "owned_load", "rlimit": 400}, {"unit": "unchecked", "rlimit": 400}],
+    "verus": [{"unit": "owned_load", "rlimit": 400}, {"unit": "unchecked", "rlimit": 400}, {"unit": "lazy_get", "rlimit": 300}],
     "kani": K_OWNED,
     "trusted_base": [T1, T2, T6, T8, VSTD, KANI, T4, PERR, "FastStr / Bytes drop glue excluded from the harnesses (mem::forget)",
                      "unit owned_load: OwnedLazyValue is opaque — it enters through a ghost shape() and the contracts of its one-line constructors (from_non_esc_str, from_faststr, From<bool/()/Number/Vec<..>>, new keeping literals parsed: the latter is what the Kani harnesses owned_new_* check); FastStr / JsonSlice::as_faststr keep the bytes (T4)",
                      "skip_one_unchecked enters through the contract proved in unit unchecked (== skip_one on a well-formed value followed by whitespace and `,` `]` `}` or the end); parse_str / Parser::parse_number enter through assumed contracts (units strings / number)",
                      "three declared substitutions in get_owned_lazyvalue: `Some(b't') if self.match_literal(..)? => return ..` becomes `Some(b't') => { if self.match_literal(..)? { return .. } unreachable!() }` — Verus proves the unreachable!() (match_literal never returns Ok(false)), so the fall-through of the original guard is dead",
                      "accessor agreement with the DOM (as_*, get on LazyRaw incl. the lock-free cache: C18), verbatim re-serialization (impl Serialize), clone/mutation histories are NOT under contract"],
-    "level_text": "Verus proof that the parser builds owned lazy values as faithful one-level views: get_owned_lazyvalue (strict: only on a well-formed value; both modes: on a well-formed value it stops just after it and keeps exactly its source span, literals parsed) and load_owned_lazyvalue (the children of a well-formed array / object are exactly the source spans of its elements / members in order, keys decoded; a well-formed array is never refused); Kani/CBMC proof of the representation invariant that makes the lazy accessors total: every constructor of OwnedLazyValue from well-formed raw text (new, From<LazyValue>) yields a value whose get_type() is defined and equals the type the text denotes, for every JSON type including true/false/null",
+    "level_text": "Verus proof that the parser builds owned lazy values as faithful one-level views: get_owned_lazyvalue (strict: only on a well-formed value; both modes: on a well-formed value it stops just after it and keeps exactly its source span, literals parsed) and load_owned_lazyvalue (the children of a well-formed array / object are exactly the source spans of its elements / members in order, keys decoded; a well-formed array is never refused), that a clone of a lazily kept value keeps its text, and that LazyValue::as_raw_number answers only for numbers (F18); Kani/CBMC proof of the representation invariant that makes the lazy accessors total: every constructor of OwnedLazyValue from well-formed raw text (new, From<LazyValue>) yields a value whose get_type() is defined and equals the type the text denotes, for every JSON type including true/false/null",
     "level_note": "construction half (what the lazy value IS); the accessor / serialization / history half of the statement is not decided",
     "technique": TECH_VK,
     "explanation": "get_owned_lazyvalue: shape == child_shape(text); load_owned_lazyvalue: shape == Arr(arr_shapes) / Obj(obj_shapes); LazyRaw.raw[0] in {-,0-9,\",[,{}; literals are Parsed",
